@@ -64,4 +64,9 @@ META = {
         "design_ref": "DESIGN.md section 6 C03",
         "note": "Trusted: as C02. Known findings (open): Gtp5g.UpdateURR never (un)registers periodic reporting (3 keys). Bound: 3 presence profiles (quick) / all subsets (thorough), all rotations of the child order, plain and reversed.",
     },
+    "C16": {
+        "text": "Bounded model checking over rule templates: the flow-description string is assembled from fixed keywords and symbolic decimal digits, pushed through the real ParseFlowDesc / ParseFlowDescIPNet / ParseFlowDescPorts / convertSlice / newFlowDesc (real strings.Fields, Split, strconv.ParseUint, net.CIDRMask, IP.Mask), encoded to netlink attributes and decoded by go-gtp5gnl's DecodeFlowDesc; the decoded action, direction, protocol, networks, masks and port pairs are asserted equal to the values computed from the digits (source and destination exchanged for uplink), out-of-range fields must be rejected, near-miss keywords must be rejected and arbitrary short ASCII strings must not fault.",
+        "design_ref": "DESIGN.md section 6 C16",
+        "note": "Trusted: Go-source models of net.ParseCIDR/ParseIP for symbolic text (differential-tested against the real functions by every native replay), go-gtp5gnl DecodeFlowDesc, engine + z3. Bound: 24 (quick) / 62 (thorough) templates x uplink/downlink; near-miss words <= 4 bytes; free strings <= 6 / 8 bytes.",
+    },
 }
